@@ -89,10 +89,18 @@ Lemma parse_marks fuel r off r' :
     T_Request_hasNSID r' = T_Request_hasNSID r || has_code 3%N cs /\
     T_Request_hasKeepalive r' = T_Request_hasKeepalive r || has_code 11%N cs.
 Proof.
-  unfold go_Request_parseWireOPT. cbv zeta.
+  (* the four receiver updates in front of the walk are nested record copies: substituting them with a
+     plain [cbv zeta] multiplies the term by the number of fields each time (21^4); evaluating the
+     projections of the destructed receiver in the same pass keeps every copy a tuple of variables *)
+  destruct r as [raw id fl qt qc no nl qe ho us do_ ver he hn hk co cl rt msg er pol].
+  unfold go_Request_parseWireOPT.
+  cbv beta iota zeta delta [T_Request_raw T_Request_id T_Request_flags T_Request_qtype T_Request_qclass T_Request_nameOff
+    T_Request_nameLen T_Request_questionEnd T_Request_hasOPT T_Request_udpSize T_Request_do T_Request_version
+    T_Request_hasECS T_Request_hasNSID T_Request_hasKeepalive T_Request_cookieOff T_Request_cookieLen
+    T_Request_readTime T_Request_msg T_Request_ednsRan T_Request_ecsPolicy].
   destruct (_ || _); [intros H; inversion H|].
   destruct (negb (_ =? 41)%N); [intros H; inversion H|].
-  destruct (Z.eqb_spec (off + 11 + Z.of_N (go_be16 (go_slice (T_Request_raw r) (off + 9) (off + 11)))) (go_len (T_Request_raw r))) as [E|E];
+  destruct (Z.eqb_spec (off + 11 + Z.of_N (go_be16 (go_slice raw (off + 9) (off + 11)))) (go_len raw)) as [E|E];
     cbn [negb]; [|intros H; inversion H].
   destruct (negb (_ =? 0)%N); [intros H; inversion H|].
   rewrite E.
